@@ -22,37 +22,37 @@ CORE = ["corpus", "bfs_c3", "bfs_c2", "rand_cw", "rand_cwf"]
 DISC_ONLY = {"C01", "C02", "C03", "C05", "C06"}
 
 PROPS = {
-    "C01": dict(streams=CORE + ["rand_cws"], fields={"kind", "Dset", "strong", "tables"},
+    "C01": dict(statement_status="PROVED in full for the modelled language (new/clone/drop/adopt/unadopt/downgrade/upgrade/store/take, the consuming API, destructor scripts, panics), every history length, graph shape and choice oracle: run_history_from_init (no fault; Inv at every boundary), reachable_alive (everything reachable from held handles is alive, in every configuration), group_inv (orphan test sound under discipline of the traced set only). Precondition as a checked hypothesis: hist_ok = discipline when drop logic starts + act_safe for scripts. 'Original value' (pid = box index) is PidInv (pi_home).", streams=CORE + ["rand_cws"], fields={"kind", "Dset", "strong", "tables"},
                 oracles={"C01"}),
-    "C02": dict(streams=CORE + ["bfs_w", "rand_cws", "rand_cwk"], fields={"kind", "Dset", "freed", "live"},
+    "C02": dict(statement_status="PROVED for the access protocol: step_inv/steps_no_fault (the only halt of a disciplined run is the abort of C16: no access to a released box, moved-out table or value), freed_iff (released exactly when unneeded, hence once), drop_dead_inv (inert handles). Destructor at most once: PidInv (dtor log NoDup) for every run. Partial by nature: compiler-level UB (aliasing, hashbrown internals) is outside the model; covered by the harness's shadow-state hook and quarantine allocator only.", streams=CORE + ["bfs_w", "rand_cws", "rand_cwk"], fields={"kind", "Dset", "freed", "live"},
                 oracles={"C02", "fault"}),
-    "C03": dict(streams=CORE + ["rand_cws"], fields={"kind", "Dset", "strong", "tables"},
+    "C03": dict(statement_status="PROVED: live_has_handle (nothing alive without a handle, every configuration), drop_last_inv (last drop destroys now), group_inv (collected set = whole traced set), run_terminates/exec_op_returns (every call returns, explicit fuel bound), orphan_complete (Inv/OrphanComplete.v: an orphaned set passes the test) when present. REFUTED for Loopback-recorded self handles: C03_loopback_refuted (known finding D3).", streams=CORE + ["rand_cws"], fields={"kind", "Dset", "strong", "tables"},
                 oracles={"C03"}),
-    "C04": dict(streams=["corpus", "bfs_c2", "bfs_w", "rand_cwf", "rand_cwsf", "rand_cwa"],
+    "C04": dict(statement_status="PROVED at the level of allocation events (box released, table storage dropped = links None, value dropped): destroyed_released, freed_iff, and every teardown path inside step_inv. Partial by nature: bytes and the allocator are not modelled; the harness's counting allocator covers them.", streams=["corpus", "bfs_c2", "bfs_w", "rand_cwf", "rand_cwsf", "rand_cwa"],
                 fields={"kind", "freed", "live"}, oracles={"C04"}),
-    "C05": dict(streams=["corpus", "bfs_w", "bfs_n", "rand_cw", "rand_cwf", "rand_cws", "rand_cwk", "rand_cwa", "rand_n"],
+    "C05": dict(statement_status="PROVED in every configuration incl. inside destructors of a group teardown: upgrade_iff_alive, weak_counts_dead, weak_target_allocated; all members dead before any destructor runs (group_inv: group_heap).", streams=["corpus", "bfs_w", "bfs_n", "rand_cw", "rand_cwf", "rand_cws", "rand_cwk", "rand_cwa", "rand_n"],
                 fields={"kind", "res", "obs", "freed", "weak"}, oracles={"C05"}),
-    "C06": dict(streams=CORE + ["bfs_w", "rand_cws"], fields={"kind", "obs", "strong", "weak", "res"},
+    "C06": dict(statement_status="PROVED: counts_exact / strong_count_exact at call boundaries, ci_strong/ci_weak in every configuration (census over registers, values, frames), adopt/unadopt change no counter (adopt_spec, unadopt_spec). Identity (ptr_eq/as_ptr stability) is trivial in the model (ids) and NOT proved: harness only.", streams=CORE + ["bfs_w", "rand_cws"], fields={"kind", "obs", "strong", "weak", "res"},
                 oracles={"C06"}),
-    "C07": dict(streams=["corpus", "bfs_n", "rand_n", "rand_np"],
+    "C07": dict(statement_status="PROVED: noadopt_is_std_exact (Proofs/StdRefine.v): for every adoption-free history over the modelled API, scripts and panics included, the machine and the specification StdRc (Proofs/StdRc.v) yield the same outcomes, destructor sequence and states. StdRc itself is tied to the real std::rc by the three-way differential run. Not modelled: comparison/formatting/hashing, From<T>/From<Box<T>>, Default, Pin (delegations to T).", streams=["corpus", "bfs_n", "rand_n", "rand_np"],
                 fields={"kind", "res", "Dseq", "Dset", "obs", "strong", "weak", "freed", "live"},
                 oracles={"C05", "C06", "C01", "C02", "fault", "C10"}, noadopt_only=True),
-    "C08": dict(streams=CORE + ["rand_cwa", "rand_cwo"], fields={"kind", "tables"}, oracles={"C08"}),
-    "C09": dict(streams=["corpus", "rand_cwf"], fields={"kind", "Dset", "strong", "weak", "obs"}, oracles=set()),
-    "C10": dict(streams=["corpus", "rand_cws", "rand_cwsf"],
+    "C08": dict(statement_status="PROVED: tables_consistent (wf, symmetric, both ends alive, Loopback = self) in every configuration; adopt_spec / unadopt_counts (exact deltas, saturating); release_links_TblInv / purge_dying_TblInv (records of a dying object disappear). The ledger form (records change ONLY by adopt/unadopt or death) is the frame theorem of Inv/TablesFrame.v when present.", streams=CORE + ["rand_cwa", "rand_cwo"], fields={"kind", "tables"}, oracles={"C08"}),
+    "C09": dict(statement_status="PROVED at the atomic-function level and for Rc::drop as a whole: cycle_refs_perm, orphaned_cycle_perm, drop_strong_perm (two table orders and two oracles), drop_cycle_oracle_indep; plus every Inv theorem quantifies over the oracle. A lockstep simulation of whole runs is not claimed (destructor order inside a group legitimately differs).", streams=["corpus", "rand_cwf"], fields={"kind", "Dset", "strong", "weak", "obs"}, oracles=set()),
+    "C10": dict(statement_status="PROVED: act_inv (every action incl. nested collections from destructors preserves Inv under act_safe), steps_inv / steps_no_fault (Inv at every re-entry point). RefCell borrow flags are not modelled: 'no borrow conflict' rests on the harness (unexpected-panic oracle) only.", streams=["corpus", "rand_cws", "rand_cwsf"],
                 fields={"kind", "Dset", "strong", "weak", "tables", "freed", "res", "obs", "live"},
                 oracles={"C10", "C01", "C02", "C03", "C05", "C06", "fault"}),
-    "C11": dict(streams=["corpus", "rand_cwsp", "rand_np"],
+    "C11": dict(statement_status="PROVED: unwind_inv, run_inv with panics at any position, run_unw (the panic propagates), step_double_panic (second panic aborts), exec_op_inv (Inv after a panicked call), freed_iff with n_leak (leaked, never released twice). Rust's unwinding rules for Vec/slice/struct drop glue are modelled, not verified.", streams=["corpus", "rand_cwsp", "rand_np"],
                 fields={"kind", "Dset", "strong", "weak", "freed", "obs"},
                 oracles={"C01", "C02", "C05", "C06", "fault"}),
-    "C12": dict(streams=["corpus", "bfs_a", "bfs_n", "rand_cwa", "rand_n"],
+    "C12": dict(statement_status="PROVED: try_unwrap_strict, make_mut_strict (all branches; cannot fault or abort), act_get_mut/into_raw/from_raw/inc_strong/dec_strong, release_links_TblInv (peers unlinked), run_history_inv from any Inv state (later histories).", streams=["corpus", "bfs_a", "bfs_n", "rand_cwa", "rand_n"],
                 fields={"kind", "tables", "res", "Dset", "freed", "live", "strong", "weak", "obs"},
                 oracles={"C08", "C02", "C01", "fault"}),
-    "C13": dict(streams=["corpus", "rand_cwe", "rand_cwo", "bfs_c2"], fields={"kind", "Dset", "strong", "tables"},
+    "C13": dict(statement_status="Full statement REFUTED: C13_refuted (known finding D4: taken-out handle kept alive). PROVED part: drop_strong_inv/step_inv under traced_disc: stale records are harmless unless a trace visits an object carrying one; a dying adoptee purges stale records.", streams=["corpus", "rand_cwe", "rand_cwo", "bfs_c2"], fields={"kind", "Dset", "strong", "tables"},
                 oracles={"C13", "C01", "fault"}),
-    "C14": dict(streams=CORE + ["rand_cws"], fields={"kind", "T"}, oracles={"C14"}),
-    "C15": dict(streams=["corpus", "bfs_c2", "rand_cw"], fields={"kind", "T"}, oracles=set()),
-    "C16": dict(streams=["corpus", "rand_cwk"], fields={"kind"}, oracles=set()),
+    "C14": dict(statement_status="PROVED: drop_unadopted_no_trace, clone_no_trace, tbl_empty_iff (fully unadopted = empty table), noadopt_program_never_traces, drop_strong_fast. Partial by nature: allocation sites of the trace containers are not modelled beyond 'no trace runs'; the harness's allocation counter covers them.", streams=CORE + ["rand_cws"], fields={"kind", "T"}, oracles={"C14"}),
+    "C15": dict(statement_status="PROVED: cycle_refs_spec (each object visited once), cycle_refs_total_cost (pops <= 1 + records, visits <= objects, always terminates), closed_group_teardown_bounded (stack <= entry + 5 frames for any group size; linear step count), run_fuel_bound. Partial by nature: native stack bytes and wall time are runtime facts (ring measurements are supporting evidence only).", streams=["corpus", "bfs_c2", "rand_cw"], fields={"kind", "T"}, oracles=set()),
+    "C16": dict(statement_status="PROVED: clone_dead_aborts, incs_dead_aborts, drop_dead_inv (no effect, allocation not yet released), group_inv (all members carry the uninit marker before any destructor runs), inv_top_token (a frame-owned handle never targets a released allocation).", streams=["corpus", "rand_cwk"], fields={"kind"}, oracles=set()),
 }
 
 
